@@ -24,6 +24,7 @@ REQUIRED = [
     # (b) tuple tracker
     "DaeVerif.C13.Props.trk_refs_equal_owners",
     "DaeVerif.C13.Props.trk_delete_exactly_when_last_owner_leaves",
+    "DaeVerif.C13.Props.trk_kernel_entry_removed_iff_last_owner",
     "DaeVerif.C13.Props.trk_only_release_deletes",
     "DaeVerif.C13.Props.trk_no_retain_during_delete",
     "DaeVerif.C13.Props.trk_finalize_wakes_waiters",
@@ -47,9 +48,9 @@ REQUIRED = [
     "DaeVerif.C13.Props.ep_single_dial",
 ]
 
-STREAMS = ["c13_tq", "c13_trk", "c13_drn", "c13_key", "c13_ep", "c13_epc", "c13_lock"]
+STREAMS = ["c13_tq", "c13_trk", "c13_krn", "c13_drn", "c13_key", "c13_ep", "c13_epc", "c13_lock"]
 HARNESS = ["control/c13_test.go", "control/c13_seq_test.go", "control/c13_ep_test.go"]
-RESET = {"c13_tq": "tq reset", "c13_trk": "trk reset", "c13_drn": "drn reset", "c13_ep": "ep reset", "c13_epc": "ep reset", "c13_lock": "epc reset"}
+RESET = {"c13_tq": "tq reset", "c13_trk": "trk reset", "c13_krn": "krn reset", "c13_drn": "drn reset", "c13_ep": "ep reset", "c13_epc": "ep reset", "c13_lock": "epc reset"}
 
 
 def segment(ops, impl, lineno, reset_prefix):
@@ -137,7 +138,9 @@ def run(ctx):
     ctx.prove(["DaeVerif.C13.Props"], ["DaeVerif.C13.Props"], ["DaeVerif/C13/*.lean"], extra_targets=["c13drv"])
     ctx.required_theorems(REQUIRED)
 
-    binp = ctx.go_test_build("control", HARNESS, "c13", tags="verif,dae_stub_ebpf")
+    # real-bpf build variant (synthetic bpf2go file, no dae_stub_ebpf): BpfMapBatchDelete is the production one
+    fake = ctx.fake_bpf_overlay()
+    binp = fake and ctx.go_test_build("control", HARNESS, "c13", tags="verif", extra_overlay=fake)
     if not binp:
         return 2
     rc, out = ctx.run_harness(binp, "TestVerifC13", timeout=1500)
